@@ -165,11 +165,13 @@ fn c05_q_tile_ids_checked_against_tileset() {
     let ids: [u32; 2] = kani::any();
     let count: u32 = kani::any();
     kani::assume(count >= 1);
+    // the tileset's "empty tile is id 0" flag is symbolic: whatever it says, every stored id must exist
+    let flag: bool = kani::any();
     let mut sets = TilesetsById::new();
     if !stubs_probe() {
-        sets.add(mk_tileset(7, count, 1, 1, Vec::new()));
+        sets.add(mk_tileset_flag(7, count, 1, 1, Vec::new(), flag));
     }
-    set_static_tileset(7, mk_tileset(7, count, 1, 1, Vec::new()));
+    set_static_tileset(7, mk_tileset_flag(7, count, 1, 1, Vec::new(), flag));
     let cel: RawCel<RawPixels> = RawCel {
         data: CelCommon { layer_index: 0, x: 0, y: 0, opacity: 255 },
         content: CelContent::Tilemap(mk_tilemap_data(2, 1, &ids)),
@@ -178,6 +180,7 @@ fn c05_q_tile_ids_checked_against_tileset() {
     let r = mk_cels(vec![vec![Some(cel)]]).validate(&layers, &sets, &PixelFormat::Rgba, None);
     assert!(r.is_ok() == (ids[0] < count && ids[1] < count), "loads iff every tile id exists in the tileset");
     kani::cover!(ids[0] == 0 && ids[1] == count);
+    kani::cover!(!flag && ids[1] == 0x1fff_ffff && count == 5, "old-style tileset, tile id with every id-mask bit set");
     kani::cover!(r.is_ok() && ids[1] == count - 1 && count == 0xffff_ffff);
     core::mem::forget(r);
     core::mem::forget(layers);
